@@ -36,7 +36,7 @@ import ast
 from ..repo import AnalysisError, FuncInfo, dotted, own_nodes
 from ..sublist import SubInterp, is_sub
 from .c07 import registry
-from .common import ctor_self_write, is_memo_fill, key_lambda, one_shot_captures
+from .common import ctor_self_write, is_memo_fill, key_lambda, new_private_state, one_shot_captures
 
 MANIFEST = {
     "text": (
@@ -205,8 +205,63 @@ def _table(fi: FuncInfo, name: str, ctx=None, depth=0):
                     idx = m.target.slice
                     idx_attr = idx.attr if isinstance(idx, ast.Attribute) else None
                     inc = ctx.norm.xtext(fi, m.value) if ctx is not None else ast.unparse(m.value)
-                    return src.func.attr, inc, idx_attr, isinstance(n.target, ast.Name) and n.target.id
+                    srcname = src.func.attr
+                    if srcname == "ongoing_operations" and inc == "1" and _prefilled_with_unscheduled_counts(fi, name):
+                        # per job: (operations not yet scheduled, from the next-operation index) + (operations in
+                        # progress, one per step of this loop) = the job's uncompleted operations
+                        srcname = "uncompleted_operations"
+                    return srcname, inc, idx_attr, isinstance(n.target, ast.Name) and n.target.id
     return None
+
+
+def _prefilled_with_unscheduled_counts(fi, name) -> bool:
+    """The table is filled, one entry per job in job order, with
+    `len(<jobs>[j]) - <next position of job j>` where j and the position come
+    from `enumerate(<dispatcher>.job_next_operation_index)` (or the index is
+    subscripted by j) - the number of operations of job j not yet scheduled."""
+    for lp in own_nodes(fi.node):
+        gens = []
+        if isinstance(lp, ast.For):
+            gens = [(lp.target, lp.iter, lp)]
+        elif isinstance(lp, ast.ListComp) and len(lp.generators) == 1:
+            gens = [(lp.generators[0].target, lp.generators[0].iter, lp)]
+        for tgt, it, node in gens:
+            if not (
+                isinstance(it, ast.Call) and isinstance(it.func, ast.Name) and it.func.id == "enumerate" and len(it.args) == 1
+                and ast.unparse(it.args[0]).endswith("job_next_operation_index")
+                and isinstance(tgt, ast.Tuple) and len(tgt.elts) == 2 and all(isinstance(e, ast.Name) for e in tgt.elts)
+            ):
+                continue
+            j, pos = tgt.elts[0].id, tgt.elts[1].id
+            defs = {
+                st.targets[0].id: st.value for st in ast.walk(node)
+                if isinstance(st, ast.Assign) and len(st.targets) == 1 and isinstance(st.targets[0], ast.Name)
+            }
+
+            def is_count(e, depth=0):
+                if isinstance(e, ast.Name) and e.id in defs and depth < 3:
+                    return is_count(defs[e.id], depth + 1)
+                return (
+                    isinstance(e, ast.BinOp) and isinstance(e.op, ast.Sub) and isinstance(e.right, ast.Name) and e.right.id == pos
+                    and isinstance(e.left, ast.Call) and isinstance(e.left.func, ast.Name) and e.left.func.id == "len" and len(e.left.args) == 1
+                    and isinstance(e.left.args[0], ast.Subscript) and ast.unparse(e.left.args[0].slice) == j
+                    and (ast.unparse(e.left.args[0].value).endswith("jobs") or ast.unparse(fi.node).count(f"{ast.unparse(e.left.args[0].value)} = ") == 1 and "instance.jobs" in ast.unparse(fi.node))
+                )
+
+            if isinstance(node, ast.ListComp):
+                holder = fi.module.parents.get(node)
+                if isinstance(holder, ast.Assign) and any(isinstance(t, ast.Name) and t.id == name for t in holder.targets) and is_count(node.elt):
+                    return True
+                continue
+            apps = [
+                c for c in ast.walk(node)
+                if isinstance(c, ast.Call) and isinstance(c.func, ast.Attribute) and c.func.attr == "append"
+                and isinstance(c.func.value, ast.Name) and c.func.value.id == name and len(c.args) == 1
+            ]
+            conditional = any(isinstance(x, (ast.If, ast.Break, ast.Continue)) for x in ast.walk(node))
+            if len(apps) == 1 and not conditional and is_count(apps[0].args[0]):
+                return True
+    return False
 
 
 CRITERIA = {
@@ -393,7 +448,7 @@ def solver(ctx):
     ok = False
     for w in loops:
         t = w.test
-        if isinstance(t, ast.UnaryOp) and isinstance(t.op, ast.Not) and ast.unparse(t.operand).endswith("schedule.is_complete()"):
+        if isinstance(t, ast.UnaryOp) and isinstance(t.op, ast.Not) and ctx.norm.xtext(solve, t.operand).endswith("schedule.is_complete()"):
             calls = [n for s in w.body for n in ast.walk(s) if isinstance(n, ast.Call) and isinstance(n.func, ast.Attribute) and n.func.attr == "step"]
             if calls and not any(isinstance(n, (ast.Break, ast.Return)) for s in w.body for n in ast.walk(s)):
                 ok = True
@@ -402,7 +457,8 @@ def solver(ctx):
     else:
         chk.violation("R04.d", solve, None, "solve does not loop on `not schedule.is_complete()` around step: it can stop early or never dispatch")
     rets = [n for n in own_nodes(solve.node) if isinstance(n, ast.Return)]
-    if not (rets and all(ast.unparse(r.value).endswith("dispatcher.schedule") for r in rets if r.value is not None)):
+    # (a local bound once to `dispatcher.schedule` is that object: Dispatcher never rebinds its schedule)
+    if not (rets and all(ctx.norm.xtext(solve, r.value).endswith("dispatcher.schedule") for r in rets if r.value is not None)):
         chk.violation("R04.d", solve, rets[0] if rets else None, "solve does not return the dispatcher's schedule")
     disp = repo.find_class("Dispatcher")
     dispatch = repo.need_method(disp, "dispatch")
@@ -916,6 +972,10 @@ def purity(ctx):
             obj = w.obj
             if is_memo_fill(ctx, w.event):
                 continue  # a correctly invalidated private memo
+            if new_private_state(ctx, w) is not None and w.fi.cls is not None and w.fi.cls.name in ("Dispatcher", "Schedule"):
+                # bookkeeping of the dispatcher / schedule that the pinned tree does not have, updated by a query
+                # the rule calls: C05 owns that question (and refuses it); not a write by the rule itself
+                continue
             if ctor_self_write(w):
                 continue  # a private helper object initialising itself
             # rebinding an attribute of the callable object itself is its own state
